@@ -183,6 +183,8 @@ pub fn tod_any() -> BS<i128> {
     wunion(vec![
         // only some of the fields h / min / s / ms / us / ns non-zero (e.g. 00:00:00.000250000)
         (2, (1u8..64, any::<u64>()).prop_map(|(m, r)| tod_masked(m, r)).boxed()),
+        // the same for the time left to the next midnight (what a count before a reference epoch decomposes into)
+        (1, (1u8..64, any::<u64>()).prop_map(|(m, r)| NS_D - tod_masked(m, r)).boxed()),
         (2, Just(0i128).boxed()),
         (2, Just(NS_D - 1).boxed()),
         (1, (0i128..1000).boxed()),
